@@ -110,6 +110,28 @@ def run(chk, repo):
     par = [a.arg for a in bl.args.args]
     chk.require(par[:4] == ["seq", "size", "hop", "padval"], "blocks signature changed: %s" % par)
     body = docstring_free(bl.body)
+    # the source belongs to the caller and the generator is suspended at every yield: what was read from the source
+    # container itself (its length, an item, a slice) before a yield says nothing about it afterwards
+    chk.rule("C08.live-source", "blocks keeps nothing read from the source container (len(seq), seq[i], seq[a:b]) in a "
+                                "local across a yield: a block holds the items the source has when the block is produced")
+    from ..aliases import _suspended_before_use
+    nlive = 0
+    for blk_, i_, st_ in [(b_, k_, s_) for n_ in ast.walk(bl) for b_ in [getattr(n_, f_, None) for f_ in ("body", "orelse")]
+                          if isinstance(b_, list) for k_, s_ in enumerate(b_)]:
+        if isinstance(st_, ast.Assign) and len(st_.targets) == 1 and isinstance(st_.targets[0], ast.Name) and any(
+                (isinstance(x_, ast.Call) and isinstance(x_.func, ast.Name) and x_.func.id == "len" and x_.args
+                 and unparse(x_.args[0]) == "seq") or (isinstance(x_, ast.Subscript) and unparse(x_.value) == "seq")
+                for x_ in ast.walk(st_.value)):
+            nlive += 1
+            v_ = st_.targets[0].id
+            # (everything after the binding in the function: the enclosing blocks, innermost first)
+            stale = _suspended_before_use(blk_[i_ + 1:], v_)
+            chk.decide(not stale, "C08.live-source", W("blocks"), short(st_),
+                       why="%s is read from the caller's container once and used again after a yield: if the sequence "
+                           "changes (a list that grows while its blocks are consumed) complete blocks are missed and "
+                           "padding appears in mid-data" % v_, node=st_)
+    if nlive == 0:
+        chk.ok("C08.live-source", W("blocks"), "the source is only iterated (nothing read by length or index)", node=bl)
     # one loop for both regimes, told apart inside by a test of hop against size (possibly kept in a flag): read as the
     # two loops it stands for - the body is specialised for hop <= size and for hop > size (guards resolved, dtable)
     seq_loop = lambda s_: isinstance(s_, ast.For) and unparse(s_.iter) == "seq"
